@@ -253,15 +253,23 @@ Section Chains.
   Qed.
 
   Lemma candidates_complete : forall s c p, In p s -> c_issuer c = c_subject p ->
-    (c_aki c = [] \/ c_ski p = c_aki c) -> In p (candidates_model s c).
+    keyid_link_ok s c p -> In p (candidates_model s c).
   Proof.
     intros s c p Hin Hname Hk. unfold candidates_model.
     destruct (Nat.eqb (length (c_aki c)) 0) eqn:Ea; cbn [negb].
     - cbn. apply filter_In. split; [exact Hin|]. apply bytes_eqb_eq. symmetry. exact Hname.
-    - destruct Hk as [Hk|Hk]. { rewrite Hk in Ea. discriminate. }
-      assert (Hp : In p (filter (fun p0 => negb (Nat.eqb (length (c_ski p0)) 0) && bytes_eqb (c_ski p0) (c_aki c)) s)).
-      { apply filter_In. split; [exact Hin|]. rewrite Hk, Ea. cbn. apply bytes_eqb_refl. }
-      destruct (filter _ s) as [|x l] eqn:Ef; [destruct Hp|]. cbn [length Nat.eqb]. exact Hp.
+    - assert (Hane : c_aki c <> []) by (intro E; rewrite E in Ea; discriminate).
+      destruct Hk as [Hk|[Hk|Hk]]; [contradiction| |].
+      + assert (Hp : In p (filter (fun p0 => negb (Nat.eqb (length (c_ski p0)) 0) && bytes_eqb (c_ski p0) (c_aki c)) s)).
+        { apply filter_In. split; [exact Hin|]. rewrite Hk, Ea. cbn. apply bytes_eqb_refl. }
+        destruct (filter _ s) as [|x l] eqn:Ef; [destruct Hp|]. cbn [length Nat.eqb]. exact Hp.
+      + assert (Hnone : filter (fun p0 => negb (Nat.eqb (length (c_ski p0)) 0) && bytes_eqb (c_ski p0) (c_aki c)) s = []).
+        { destruct (filter _ s) as [|x l] eqn:Ef; [reflexivity|]. exfalso.
+          assert (Hx : In x (filter (fun p0 => negb (Nat.eqb (length (c_ski p0)) 0) && bytes_eqb (c_ski p0) (c_aki c)) s))
+            by (rewrite Ef; left; reflexivity).
+          apply filter_In in Hx. destruct Hx as [Hxs Hb]. apply andb_true_iff in Hb. destruct Hb as [_ Hb].
+          apply bytes_eqb_eq in Hb. exact (Hk x Hxs Hb). }
+        rewrite Hnone. cbn [length Nat.eqb]. apply filter_In. split; [exact Hin|]. apply bytes_eqb_eq. symmetry. exact Hname.
   Qed.
 
   Lemma fvp_sound : forall s c sc ps sc', FVP s c sc = (ps, sc') ->
@@ -524,7 +532,7 @@ Section Chains.
   Definition ext_valid (c : cert) (cur ups : list cert) : Prop :=
     ups <> [] /\
     issuers_ok c (length cur - 1) ups /\
-    keyids_wf c ups /\
+    keyids_wf roots inters c ups /\
     (forall x, In x ups -> in_chain x cur = false) /\
     NoDup (ids ups) /\
     (exists mids root, ups = mids ++ [root] /\ In root roots /\ forall m, In m mids -> In m inters) /\
@@ -796,7 +804,7 @@ Section Top.
 
   Lemma verify_complete_lemma : forall fuel leaf ch,
     VALID leaf ch -> strict_extras opts ch ->
-    (forall ups, ch = leaf :: ups -> keyids_wf leaf ups) ->
+    (forall ups, ch = leaf :: ups -> keyids_wf roots inters leaf ups) ->
     ~ In invalidUsage (o_keyusages opts) ->
     length inters < fuel ->
     sigchecks_used sig_ok roots inters opts fuel leaf <= maxChainSignatureChecks ->
@@ -992,3 +1000,56 @@ Proof.
     destruct (Hups c Hc) as [_ [H|H]]; [left; exact H|right; left; exact H].
   - intros c [<-|Hc] Hp; [contradiction|]. destruct (Hups c Hc) as [H _]. contradiction.
 Qed.
+
+(* ---------- the two readings of the path-length constraint ------------------------------------------------ *)
+Section PathLenReadings.
+  Variable sig_ok : cert -> cert -> bool.
+  Variable parse_ip : list byte -> option (list byte).
+  Variable roots inters : list cert.
+  Variable opts : options.
+
+  Lemma issuer_ok_mono : forall child m n p, m <= n ->
+    issuer_ok sig_ok opts child n p -> issuer_ok sig_ok opts child m p.
+  Proof.
+    intros child m n p Hmn (H1 & H2 & H3 & H4 & H5 & H6 & H7). unfold issuer_ok.
+    split; [exact H1|]. split; [exact H2|]. split; [exact H3|]. split; [exact H4|]. split; [exact H5|]. split; [|exact H7].
+    intros Hb Hm. specialize (H6 Hb Hm). lia.
+  Qed.
+
+  Lemma issuers_ok_to_rfc : forall ups child m n, m <= n ->
+    issuers_ok sig_ok opts child n ups -> issuers_ok_rfc sig_ok opts child m ups.
+  Proof.
+    induction ups as [|p ups IH]; intros child m n Hmn H; [exact I|].
+    cbn [issuers_ok issuers_ok_rfc] in *. destruct H as [H1 H2]. split; [exact (issuer_ok_mono _ _ _ _ Hmn H1)|].
+    destruct (self_issued_dec p); apply (IH p _ (S n)); try lia; exact H2.
+  Qed.
+
+  Lemma rfc_to_issuers_ok : forall ups child n,
+    no_self_issued_intermediate ups ->
+    issuers_ok_rfc sig_ok opts child n ups -> issuers_ok sig_ok opts child n ups.
+  Proof.
+    induction ups as [|p ups IH]; intros child n Hns H; [exact I|].
+    cbn [issuers_ok issuers_ok_rfc] in *. destruct H as [H1 H2]. split; [exact H1|].
+    destruct ups as [|q ups']; [exact I|].
+    assert (Hp : c_issuer p <> c_subject p) by (apply Hns; cbn; left; reflexivity).
+    destruct (self_issued_dec p) as [E|_]; [contradiction|].
+    apply IH; [|exact H2]. intros c Hc. apply Hns. cbn [removelast]. right. exact Hc.
+  Qed.
+
+  Lemma valid_chain_to_rfc : forall leaf ch,
+    valid_chain sig_ok parse_ip roots inters opts leaf ch -> valid_chain_rfc sig_ok parse_ip roots inters opts leaf ch.
+  Proof.
+    intros leaf ch (ups & E & Hl & Hi & Hn & Hf). exists ups.
+    split; [exact E|]. split; [exact Hl|]. split; [|split; assumption].
+    exact (issuers_ok_to_rfc ups leaf 0 0 (le_n 0) Hi).
+  Qed.
+
+  Lemma valid_chain_of_rfc : forall leaf ups,
+    no_self_issued_intermediate ups ->
+    valid_chain_rfc sig_ok parse_ip roots inters opts leaf (leaf :: ups) -> valid_chain sig_ok parse_ip roots inters opts leaf (leaf :: ups).
+  Proof.
+    intros leaf ups Hns (ups' & E & Hl & Hi & Hn & Hf). injection E as <-.
+    exists ups. split; [reflexivity|]. split; [exact Hl|]. split; [|split; assumption].
+    exact (rfc_to_issuers_ok ups leaf 0 Hns Hi).
+  Qed.
+End PathLenReadings.
